@@ -101,13 +101,25 @@ func runC17(p *Program, r *Report) {
 				}
 				if mc, isMC := arg0.(*ssa.MakeClosure); isMC {
 					bad := ""
-					for _, b := range mc.Bindings {
-						for _, rt := range terminalRoots(Origins(b, nil)) {
-							if rt.Kind != "param" && rt.Kind != "const" {
-								bad = rt.String()
+					var chk func(mc *ssa.MakeClosure, depth int)
+					chk = func(mc *ssa.MakeClosure, depth int) {
+						for _, b := range mc.Bindings {
+							for _, rt := range terminalRoots(Origins(b, nil)) {
+								// a captured function literal is judged by what it captures in turn
+								if inner, isMC := rt.Val.(*ssa.MakeClosure); isMC && rt.Kind == "func" && depth < 3 {
+									chk(inner, depth+1)
+									continue
+								}
+								if fn, isFn := rt.Val.(*ssa.Function); isFn && rt.Kind == "func" && fn.Parent() == nil {
+									continue // a top-level function captures nothing
+								}
+								if rt.Kind != "param" && rt.Kind != "const" {
+									bad = rt.String()
+								}
 							}
 						}
 					}
+					chk(mc, 0)
 					r.Check(bad == "", "R-C17-6", fnName(m)+"/update-closure:captures-only-params", p.Pos(c.Pos()), "closure captures only method parameters", "the update closure uses state computed before the write lock was taken ("+bad+"): a concurrent update between that read and the locked write is lost")
 					// the closure parses its own data parameter
 					cl := mc.Fn.(*ssa.Function)
@@ -213,14 +225,39 @@ func c17Cache(p *Program, r *Report) {
 	}
 	// R-C17-3 / R-C17-4
 	isSvc := func(c ssa.CallInstruction) bool { return isIAMCall(c) }
+	// a cache mutator is a method of the cache type that writes its map (whatever it is called): an insertion
+	// if it can store an entry without having found one, a plain mutation (update in place, delete) otherwise
 	isCacheMut := func(c ssa.CallInstruction) (bool, bool) { // (mutation, insertion)
-		switch calleeName(c) {
-		case "(*auth.icache).set":
-			return true, true
-		case "(*auth.icache).update", "(*auth.icache).Delete":
-			return true, false
+		g := c.Common().StaticCallee()
+		if g == nil || g.Signature.Recv() == nil || typeStr(g.Signature.Recv().Type()) != "*auth.icache" {
+			return false, false
 		}
-		return false, false
+		var found []edge
+		for _, ce := range condEdgesOf(g) {
+			if ex, ok := ce.cond.(*ssa.Extract); ok && ex.Index == 1 {
+				if lk, ok := ex.Tuple.(*ssa.Lookup); ok && lk.CommaOk {
+					found = append(found, ce.holds)
+				}
+			}
+		}
+		live := reachable(g, nil, found)
+		mut, ins := false, false
+		for _, b := range g.Blocks {
+			for _, in := range b.Instrs {
+				switch x := in.(type) {
+				case *ssa.MapUpdate:
+					mut = true
+					if len(found) == 0 || live[b] {
+						ins = true
+					}
+				case *ssa.Call:
+					if isBuiltinCall(x, "delete") {
+						mut = true
+					}
+				}
+			}
+		}
+		return mut, ins
 	}
 	for _, name := range []string{"CreateAccount", "DeleteUserAccount", "UpdateUserAccount", "GetUserAccount"} {
 		m := p.Func("(*auth.IAMCache)." + name)
@@ -256,7 +293,7 @@ func c17Cache(p *Program, r *Report) {
 			bad := false
 			reach := reachableAvoiding(m, nil, nil, avoid)
 			for _, s := range errReturnSites(m) {
-				if isNilConst(s.val) && reach[s.ret.Block()] {
+				if isNilConst(s.val) && s.reachedIn(reach) {
 					bad = true
 				}
 			}
